@@ -201,4 +201,3 @@ func TestVFC14LeaseDBSyscalls(t *testing.T) {
 		vfC14.Nontrivial(fmt.Sprintf("leasedb|strace|%d", i))
 	}
 }
-
